@@ -96,10 +96,21 @@ func HarnessC18StartStop() {
 		served = true
 	}()
 	// Close arrives at an arbitrary moment: before the server goroutines ran, or after everything settled
+	settled := false
 	switch vhChoice("when", 2) {
 	case 0:
 	default:
 		vQuiesce()
+		settled = !slow
+	}
+	if settled {
+		// the server had time to start: every listener is being accepted from, the waiting connection is served
+		for i := 0; i < nl; i++ {
+			vAssert(ls[i].accepting >= 1, "c18:every-listener-is-accepted-from")
+		}
+		if client != nil {
+			vAssert(len(client.sent) > 0, "c18:waiting-connection-is-served")
+		}
 	}
 	if slow {
 		// Close lands while the serve call is still starting its listeners (the last one is slow to bind)
